@@ -60,7 +60,7 @@ def run(ctx, config='rel-all'):
             okret = True
             if okargs and (m.get('output') or '()') != '()':
                 I2, r2 = arena.run_fn(ctx, b['id'], config)
-                fe = [e for e in r2.events if len(e.stack) == 1 and e.kind == 'call' and (e.extra.get('callee') or {}).get('trait') == tr and (e.extra.get('callee') or {}).get('name') == name]
+                fe = [e for e in r2.events if e.is_own() and e.kind == 'call' and (e.extra.get('callee') or {}).get('trait') == tr and (e.extra.get('callee') or {}).get('name') == name]
                 okret = len(fe) == 1 and r2.ret == fe[0].ret
             if okargs and not okret:
                 ctx.violation('R2', fn, 'forward-result', '%s does not return exactly the result of the forwarded %s::%s (the boxed value must compare / format / iterate as the value does, for every value)' % (fn, tr.split('::')[-1], name), b.get('span'))
@@ -144,7 +144,7 @@ def run(ctx, config='rel-all'):
 
     def normal_drops(b, I, r):
         g = I.cfg(b)
-        return [e for e in r.events if e.kind in ('drop', 'drop_in_place') and len(e.stack) == 1 and not b['blocks'][e.block].get('cleanup')]
+        return [e for e in r.events if e.kind in ('drop', 'drop_in_place') and e.is_own() and not b['blocks'][e.block].get('cleanup')]
     b = box_fn('into_raw')
     if b:
         I, r = arena.run_fn(ctx, b['id'], config)
@@ -174,7 +174,7 @@ def run(ctx, config='rel-all'):
     if b:
         I, r = arena.run_fn(ctx, b['id'], config)
         n5 += 1
-        rd = [e for e in r.events if e.kind == 'call' and len(e.stack) == 1 and (e.callee or '').endswith('ptr::read')]
+        rd = [e for e in r.events if e.kind == 'call' and e.is_own() and (e.callee or '').endswith('ptr::read')]
         okv = len(rd) == 1 and rd[0].args[0] == PTR and r.ret == rd[0].ret and not normal_drops(b, I, r)
         if okv:
             ctx.ok('R5', 'Box::into_inner moves the value out with one ptr::read of the pointee and does not drop it in place', 'return term + no Drop')
@@ -185,7 +185,7 @@ def run(ctx, config='rel-all'):
         if b:
             I, r = arena.run_fn(ctx, b['id'], config)
             n5 += 1
-            al = [e for e in r.events if e.kind == 'call' and len(e.stack) == 1 and (e.callee or '').endswith('::alloc')]
+            al = [e for e in r.events if e.kind == 'call' and e.is_own() and (e.callee or '').endswith('::alloc')]
             okv = len(al) == 1 and al[0].args == [('param', 2), ('param', 1)] and r.ret is not None and (al[0].ret in subterms(r.ret)) and not normal_drops(b, I, r)
             if okv:
                 ctx.ok('R5', 'Box::%s: the box holds exactly the pointer returned by a.alloc(x); x is moved, not dropped' % name, 'return aggregate contains the allocation result')
@@ -213,7 +213,7 @@ def run(ctx, config='rel-all'):
         I, r = arena.run_fn(ctx, b['id'], config)
         d = [e for e in r.events if e.kind == 'drop_in_place']
         g = db.cfg(b)
-        every_path = bool(d) and not (set(g.returns()) & g.reach([0], avoid_blocks=[e.block for e in d if len(e.stack) == 1]))
+        every_path = bool(d) and not (set(g.returns()) & g.reach([0], avoid_blocks=[e.block for e in d if e.is_own()]))
         if len(d) == 1 and 'Box.0' in repr(d[0].args[0]) and every_path:
             ctx.ok('R3', 'Drop for Box is drop_in_place(self.0) on every path', 'term + must-pass-through')
         else:
@@ -230,7 +230,7 @@ def run(ctx, config='rel-all'):
         I, r = arena.run_fn(ctx, b['id'], config)
         fn = arena.short(b['id'])
         fg = [e for e in r.events if e.kind == 'call' and e.callee == 'core::mem::forget']
-        sl = [e for e in r.events if e.kind == 'slice' and len(e.stack) == 1]
+        sl = [e for e in r.events if e.kind == 'slice' and e.is_own()]
         if not fg or not sl:
             ctx.violation('R4', fn, 'shape', 'expected a from_raw_parts and a mem::forget in %s' % fn, b.get('span'))
             continue
